@@ -37,7 +37,7 @@ OPT_OF = {
     "MEAN": "ReducerOptions", "RESIZE_BILINEAR": "ResizeBilinearOptions",
     "RESIZE_NEAREST_NEIGHBOR": "ResizeNearestNeighborOptions", "QUANTIZE": "QuantizeOptions",
     "TRANSPOSE_CONV": "TransposeConvOptions", "FLOOR": None, "ABS": "AbsOptions", "MINIMUM": "MaximumMinimumOptions",
-    "MAXIMUM": "MaximumMinimumOptions", "SPLIT": "SplitOptions", "SQUEEZE": "SqueezeOptions",
+    "MAXIMUM": "MaximumMinimumOptions", "SPLIT": "SplitOptions", "SPLIT_V": "SplitVOptions", "SQUEEZE": "SqueezeOptions",
     "EXPAND_DIMS": "ExpandDimsOptions", "TRANSPOSE": "TransposeOptions", "SLICE": "SliceOptions",
     "DEQUANTIZE": "DequantizeOptions", "EXP": "ExpOptions", "ARG_MAX": "ArgMaxOptions", "PACK": "PackOptions",
     "UNPACK": "UnpackOptions", "SHAPE": "ShapeOptions", "PRELU": None, "RSQRT": None, "CUSTOM": None,
@@ -728,7 +728,8 @@ def fam_mixed_cpu(rng):
 
 
 UNSUPPORTED_KINDS = ["rank5", "rank0", "batch", "big_stride", "big_kernel", "int32_add", "float", "dyn_weights",
-                     "big_dim", "no_quant", "dilation", "int16_pool", "bool", "per_axis_fc", "pool_stride4", "dw_stride4"]
+                     "big_dim", "no_quant", "dilation", "int16_pool", "bool", "per_axis_fc", "pool_stride4", "dw_stride4",
+                     "dyn_reshape", "dyn_pad", "dyn_mean", "dyn_transpose", "dyn_slice", "dyn_resize", "dyn_split", "dyn_splitv"]
 
 
 def fam_unsupported(rng, kind=None):
@@ -789,6 +790,51 @@ def fam_unsupported(rng, kind=None):
     elif kind == "int16_pool":
         x = _inp(net, rng, [1, 16, 16, 8], "int16")
         y = pool(net, rng, x, "AVERAGE_POOL_2D", (rng.choice([2, 8, 16]),) * 2, (1, 1), rng.choice(["SAME", "VALID"]))
+    elif kind.startswith("dyn_"):
+        # a parameter operand that is valid TFLite but not a constant: a second graph input, or computed by another operator
+        x = _inp(net, rng, [1, 4, 6, 8], dt)
+
+        def param(shape, data, name):
+            if rng.random() < 0.5:
+                return net.input(shape, "int32", None, None, name=name)
+            c = net.tensor(shape, "int32", None, None, data)
+            z = net.tensor(shape, "int32", None, None, np.zeros(shape, dtype=np.int64))
+            t = net.tensor(shape, "int32")
+            net.op("ADD", [c, z], [t], dict(FusedActivationFunction=0))
+            return t
+        if kind == "dyn_reshape":
+            y = net.tensor([1, 24, 1, 8], dt, x.scale, x.zp)
+            net.op("RESHAPE", [x, param([4], [1, 24, 1, 8], "new_shape")], [y], dict(NewShape=[1, 24, 1, 8]) if rng.random() < 0.5 else {})
+        elif kind == "dyn_pad":
+            y = net.tensor([1, 6, 8, 8], dt, x.scale, x.zp)
+            net.op("PAD", [x, param([4, 2], [[0, 0], [1, 1], [1, 1], [0, 0]], "paddings")], [y], {})
+        elif kind == "dyn_mean":
+            y = net.tensor([1, 1, 1, 8], dt, x.scale, x.zp)
+            net.op("MEAN", [x, param([2], [1, 2], "axes")], [y], dict(KeepDims=True))
+        elif kind == "dyn_transpose":
+            y = net.tensor([1, 6, 4, 8], dt, x.scale, x.zp)
+            net.op("TRANSPOSE", [x, param([4], [0, 2, 1, 3], "perm")], [y], {})
+        elif kind == "dyn_slice":
+            y = net.tensor([1, 2, 6, 8], dt, x.scale, x.zp)
+            bt = param([4], [0, 1, 0, 0], "begin")
+            et = net.tensor([4], "int32", None, None, [1, 3, 6, 8])
+            st = net.tensor([4], "int32", None, None, [1, 1, 1, 1])
+            net.op("STRIDED_SLICE", [x, bt, et, st], [y], dict(BeginMask=0, EndMask=0, EllipsisMask=0, NewAxisMask=0, ShrinkAxisMask=0))
+        elif kind == "dyn_split":
+            y = net.tensor([1, 4, 6, 4], dt, x.scale, x.zp)
+            y2 = net.tensor([1, 4, 6, 4], dt, x.scale, x.zp)
+            net.op("SPLIT", [param([], 3, "axis") if rng.random() < 0.5 else param([1], [3], "axis"), x], [y, y2], dict(NumSplits=2))
+            net.output(y2)
+        elif kind == "dyn_splitv":
+            y = net.tensor([1, 4, 6, 3], dt, x.scale, x.zp)
+            y2 = net.tensor([1, 4, 6, 5], dt, x.scale, x.zp)
+            ax = net.tensor([], "int32", None, None, 3)
+            net.op("SPLIT_V", [x, param([2], [3, 5], "sizes"), ax], [y, y2], dict(NumSplits=2))
+            net.output(y2)
+        else:
+            y = net.tensor([1, 8, 12, 8], dt, x.scale, x.zp)
+            net.op("RESIZE_NEAREST_NEIGHBOR" if rng.random() < 0.5 else "RESIZE_BILINEAR", [x, param([2], [8, 12], "size")], [y],
+                   dict(AlignCorners=False, HalfPixelCenters=False))
     elif kind == "bool":
         x = net.input([1, 4], "bool", name="input0")
         y = net.tensor([1, 4], "bool")
@@ -1191,6 +1237,34 @@ FAMILIES = {
     "diamond": fam_diamond, "mixed_cpu": fam_mixed_cpu, "unsupported": fam_unsupported, "lut_heavy": fam_lut_heavy, "lut_mixed": fam_lut_mixed, "siamese": fam_siamese, "weights_heavy": fam_weights_heavy, "ew_dag": fam_ew_dag, "multi_custom": fam_multi_custom,
 }
 FAMILIES["multi_subgraph"] = fam_multi_subgraph
+
+
+def fam_upscale_chain(rng, kind=None):
+    """C10: a x2 upscaling operator (RESIZE_NEAREST_NEIGHBOR / RESIZE_BILINEAR) BETWEEN convolutions, so that the
+    NEAREST-upscaling NPU operator can sit inside a cascade and inherit its stripe height from its consumer.
+    kind: "nearest" | "bilinear" | None (drawn)"""
+    net = Net("upscale_chain")
+    dt = "int8"
+    h = rng.choice([8, 12, 16, 24, 24, 32, 40])
+    w = rng.choice([8, 16, 24, 24, 32])
+    c = rng.choice([8, 8, 16])
+    x = _inp(net, rng, [1, h, w, c], dt)
+    for _ in range(rng.choice([1, 1, 2])):
+        x = conv2d(net, rng, x, rng.choice([16, 32, 32, 48]), (3, 3), (1, 1), (1, 1), "SAME", rng.choice(["NONE", "RELU"]))
+    kind = kind or rng.choice(["nearest", "nearest", "bilinear"])
+    if kind == "nearest":
+        x = resize(net, rng, x, "RESIZE_NEAREST_NEIGHBOR", 2, False, rng.random() < 0.3)
+    else:
+        x = resize(net, rng, x, "RESIZE_BILINEAR", 2, False, rng.random() < 0.3)
+    for i in range(rng.choice([1, 1, 2])):
+        k = rng.choice([1, 3, 3, 3, 5])
+        s = rng.choice([1, 1, 1, 1, 2, 3]) if i else 1
+        x = conv2d(net, rng, x, rng.choice([8, 8, 16, 32]), (k, k), (s, s), (1, 1), rng.choice(["SAME", "SAME", "VALID"]), "NONE")
+    net.output(x)
+    return net
+
+
+FAMILIES["upscale_chain"] = fam_upscale_chain
 
 
 def generate(family, seed):
